@@ -22,6 +22,7 @@ package builder
 
 import (
 	"fmt"
+	"math"
 	"math/big"
 	"reflect"
 	"time"
@@ -128,10 +129,8 @@ func (_this *BuilderEventReceiver) OnPositiveInt(value uint64) {
 
 func (_this *BuilderEventReceiver) OnNegativeInt(value uint64) {
 	if value == 0 {
-		// Yes, this stupidity around negative zero literals in go is intentional. Blame them.
-		const zero = float64(0)
-		const negZero = -zero
-		_this.OnFloat(negZero)
+		// Go constant arithmetic has no negative zero (-float64(0) is +0), so it must be made at runtime.
+		_this.OnFloat(math.Copysign(0, -1))
 		return
 	}
 	if value <= 0x7fffffffffffffff {
